@@ -893,9 +893,28 @@ void TzDevice::exec(const std::vector<std::string>& t, int opIndex, Verdict& v, 
       }
       if (c.tz.isError()) { c.d.kind = K_ERROR; cov.count("probe.create_by_name_absent"); }
       else {
+        if (named && c.tz.getZoneId() != zoneIdOf(ext, named)) {
+          // The manager handed out another zone than the one named. Is that HISTORY? Ask a manager built this instant
+          // over the same registry, with the name in a block of its own. If it names the same other zone, the lookup
+          // is simply not exact - C10's subject, not C08's or C16's: the client is catalogued as what it is and the
+          // run goes on. Only if a manager without history finds the right zone is the difference due to what this
+          // manager was asked before, and the client stays catalogued from its name (C08 compares it with the named
+          // zone at the next question).
+          cov.count("probe.create_by_name_other_zone");
+          MgrSlot probe;
+          probe.registry = m.registry;
+          probe.construct(ext, m.size, (uint8_t)(poison ^ 0x5a));
+          char* h = (char*)malloc(name.size() + 1);
+          memcpy(h, name.c_str(), name.size() + 1);
+          TimeZone again = probe.base->createForZoneName(h);
+          free(h);
+          if (!again.isError() && again.getZoneId() == c.tz.getZoneId()) {
+            named = nullptr;
+            cov.count("probe.create_by_name_inexact_without_history");
+          }
+        }
         const void* zi = named ? named : m.findById(c.tz.getZoneId());
         if (!zi) return;
-        if (named && c.tz.getZoneId() != zoneIdOf(ext, named)) cov.count("probe.create_by_name_other_zone");
         c.d.kind = ext ? K_XMGR : K_BMGR; c.d.zi = zi; c.d.zoneId = zoneIdOf(ext, zi);
         c.d.zone = -1;
         int full = ext ? zonedbx::kZoneRegistrySize : zonedb::kZoneRegistrySize;
@@ -1833,7 +1852,9 @@ struct SweepWalk {
   ExtendedZoneProcessor* xp = nullptr;
   std::string history;     // the walk so far, as trace lines
   bool keepHistory = true;
+  unsigned poisonByte = 0;
   void build(uint8_t poison) {
+    poisonByte = poison;
     if (ext) xp = new (st.fresh(sizeof(ExtendedZoneProcessor), poison)) ExtendedZoneProcessor();
     else bp = new (st.fresh(sizeof(BasicZoneProcessor), poison)) BasicZoneProcessor();
   }
@@ -1841,7 +1862,7 @@ struct SweepWalk {
     return ext ? TimeZone::forZoneInfo((const extended::ZoneInfo*)zi[c], xp) : TimeZone::forZoneInfo((const basic::ZoneInfo*)zi[c], bp);
   }
   std::string header(int clients) const {
-    std::string h = "PROFILE tz-history\nCFG TZ poison=0 decoyfirst=0\n";
+    std::string h = fmt("PROFILE tz-history\nCFG TZ poison=%u decoyfirst=0\n", poisonByte);
     h += fmt("PROC %s 0\n", ext ? "x" : "b");
     for (int c = 0; c < clients; c++) h += fmt("TZ %d %s %d proc=0\n", c, ext ? "xdirect" : "bdirect", idx[c]);
     return h;
@@ -1854,7 +1875,7 @@ struct SweepWalk {
 
 }  // namespace
 
-int sweepTzPairs(unsigned job, unsigned jobs, unsigned stride) {
+int sweepTzPairs(unsigned job, unsigned jobs, unsigned stride, int onlyDb, int onlyZone) {
   if (!jobs) jobs = 1;
   if (!stride) stride = 1;
   uint64_t pairs = 0, zones = 0, checks = 0;
@@ -1864,7 +1885,8 @@ int sweepTzPairs(unsigned job, unsigned jobs, unsigned stride) {
     const bool ext = db == 1;
     const int full = ext ? zonedbx::kZoneRegistrySize : zonedb::kZoneRegistrySize;
     for (int z = 0; z < full; z += (int)stride) {
-      if ((counter++ % jobs) != job) continue;
+      if (onlyDb >= 0) { if (db != onlyDb || z != onlyZone) continue; }
+      else if ((counter++ % jobs) != job) continue;
       zones++;
       const void* zi = ext ? (const void*)zonedbx::kZoneRegistry[z] : (const void*)zonedb::kZoneRegistry[z];
       const int z2 = (z + 1) % full;
